@@ -275,7 +275,7 @@ func genSymKey(r *rand.Rand, alg int, mostlyValid bool) string {
 	if bad(10) {
 		ks = []int{0, 15, 16, 17, 31, 32, 33, 48, 64}[r.Intn(9)]
 	}
-	kv := "b:" + hx(randBytes(r, ks))
+	kv := []string{"b:", "b:", "b:", "bs:", "bx:"}[r.Intn(5)] + hx(randBytes(r, ks))
 	if bad(15) {
 		kv = []string{"bs:" + hx(randBytes(r, ks)), "bnil", "t:6b", "int:5", "nil", "[ int:1 ]"}[r.Intn(6)]
 	}
@@ -296,7 +296,7 @@ func genSymKey(r *rand.Rand, alg int, mostlyValid bool) string {
 		parts = append(parts, "int:3", fmt.Sprintf("%s:%d", []string{"int", "alg", "i64", "i8"}[r.Intn(4)], alg))
 	}
 	if r.Intn(2) == 0 {
-		kid := "b:" + hx(randBytes(r, 1+r.Intn(8)))
+		kid := []string{"b:", "b:", "bs:", "bx:"}[r.Intn(4)] + hx(randBytes(r, 1+r.Intn(8)))
 		if bad(6) {
 			kid = []string{"b:-", "bnil", "t:6b", "int:1", "nil", "bs:0102"}[r.Intn(6)]
 		}
@@ -306,7 +306,8 @@ func genSymKey(r *rand.Rand, alg int, mostlyValid bool) string {
 		parts = append(parts, "int:4", genOpsValue(r))
 	}
 	if r.Intn(6) == 0 {
-		parts = append(parts, "int:5", "b:"+hx(randBytes(r, nonceSizeOf(alg))))
+		// Base IV: an optional member, held as []byte, key.ByteStr (what Key.BaseIV() hands out) or another byte-slice type
+		parts = append(parts, "int:5", []string{"b:", "bs:", "bx:"}[r.Intn(3)]+hx(randBytes(r, nonceSizeOf(alg))))
 	}
 	if bad(12) {
 		parts = append(parts, []string{"int:6", "int:-2", "t:78", "int:100"}[r.Intn(4)], "int:1")
